@@ -168,6 +168,24 @@ def replay_pyvc(rec):
     scope = dict(helpers)
     scope.update(env)
     scope['result'] = result
+    rel = rp.get('relate')
+    if rel:
+        # relational contract: second call on the derived inputs
+        for a in rel.get('extra', []):
+            scope[a] = build(argtypes.get(a), case[a] if a in case else gather(model, a))
+        env2 = dict(env)
+        for a, text in rel.get('second', {}).items():
+            env2[a] = eval(compile_cl(text), scope)
+        try:
+            fn = getattr(obj, parts[-1]) if selfobj is None else getattr(env2.get('self', selfobj),
+                                                                          parts[-1])
+            scope['result2'] = fn(*[env2[a] for a in rp.get('args', [])])
+            observed['result2'] = repr(scope['result2'])
+        except Exception as e:  # noqa: BLE001
+            observed['raised2'] = f'{type(e).__name__}: {e}'
+            if raised is None:
+                return 'confirmed', f'second run raised {type(e).__name__}, first did not', observed
+            return 'spurious', 'both runs raise', observed
     # precondition must hold for the counterexample to count
     for r in rp.get('requires', []):
         try:
